@@ -304,11 +304,39 @@ def Decoder.fromRawParts (c : Cfg) (data : List Nat) (pos lower range point : Na
   if wsub c.S point lower ≥ range then none
   else some { data := data, pos := pos, lower := lower, range := range, point := point }
 
-/-- `Cursor::read` with queue semantics -/
-def readWord (data : List Nat) (pos : Nat) : Option Nat × Nat :=
-  match data[pos]? with
-  | some w => (some w, pos + 1)
-  | none => (none, pos)
+/-- the part of `decode_symbol` after `model.quantile_function` returned `(s, cum, p)` -/
+def decodeStep {Sym : Type} (c : Cfg) (d : Decoder) (scale : Nat) (s : Sym) (cum p : Nat) :
+    Except DecErr (Sym × Decoder) :=
+  match cmul "range.dec.scale*cum" c.S scale cum with
+  | .error f => .error (.fault f)
+  | .ok off =>
+    let lower1 := wadd c.S d.lower off
+    match cmul "range.dec.scale*p" c.S scale p with
+    | .error f => .error (.fault f)
+    | .ok range1 =>
+      -- `.into_nonzero().expect("TODO")`
+      if range1 = 0 then .error (.fault (.panic "range.dec.expect")) else
+      match shl "range.dec.thr" c.S 1 (c.S - c.W) with
+      | .error f => .error (.fault f)
+      | .ok thr =>
+        if range1 < thr then
+          match shl "range.dec.lower<<W" c.S lower1 c.W with
+          | .error f => .error (.fault f)
+          | .ok lower2 =>
+            match shl "range.dec.range<<W" c.S range1 c.W with
+            | .error f => .error (.fault f)
+            | .ok range2 =>
+              if range2 = 0 then .error (.fault (.ub "range.dec.nonzero")) else
+              match shl "range.dec.point<<W" c.S d.point c.W with
+              | .error f => .error (.fault f)
+              | .ok point2 =>
+                match d.data[d.pos]? with
+                | some w =>
+                  .ok (s, { d with pos := d.pos + 1, lower := lower2, range := range2,
+                                   point := point2 ||| w })
+                | none =>
+                  .ok (s, { d with lower := lower2, range := range2, point := point2 })
+        else .ok (s, { d with lower := lower1, range := range1 })
 
 /-- `decode_symbol` -/
 def decode {Sym : Type} (c : Cfg) (m : Model Sym) (d : Decoder) :
@@ -323,38 +351,8 @@ def decode {Sym : Type} (c : Cfg) (m : Model Sym) (d : Decoder) :
       | .error f => .error (.fault f)
       | .ok total =>
         if quantile ≥ total then .error .invalidData else
-        let (s, cum, p) := m.dec (narrow c.B (narrow c.W quantile))
-        match cmul "range.dec.scale*cum" c.S scale cum with
-        | .error f => .error (.fault f)
-        | .ok off =>
-          let lower1 := wadd c.S d.lower off
-          match cmul "range.dec.scale*p" c.S scale p with
-          | .error f => .error (.fault f)
-          | .ok range1 =>
-            -- `.into_nonzero().expect("TODO")`
-            if range1 = 0 then .error (.fault (.panic "range.dec.expect")) else
-            match shl "range.dec.thr" c.S 1 (c.S - c.W) with
-            | .error f => .error (.fault f)
-            | .ok thr =>
-              if range1 < thr then
-                match shl "range.dec.lower<<W" c.S lower1 c.W with
-                | .error f => .error (.fault f)
-                | .ok lower2 =>
-                  match shl "range.dec.range<<W" c.S range1 c.W with
-                  | .error f => .error (.fault f)
-                  | .ok range2 =>
-                    if range2 = 0 then .error (.fault (.ub "range.dec.nonzero")) else
-                    match shl "range.dec.point<<W" c.S d.point c.W with
-                    | .error f => .error (.fault f)
-                    | .ok point2 =>
-                      match readWord d.data d.pos with
-                      | (some w, pos') =>
-                        .ok (s, { d with pos := pos', lower := lower2, range := range2,
-                                         point := point2 ||| w })
-                      | (none, pos') =>
-                        .ok (s, { d with pos := pos', lower := lower2, range := range2,
-                                         point := point2 })
-              else .ok (s, { d with lower := lower1, range := range1 })
+        let t := m.dec (narrow c.B (narrow c.W quantile))
+        decodeStep c d scale t.1 t.2.1 t.2.2
 
 /-- `maybe_exhausted` -/
 def Decoder.maybeExhausted (c : Cfg) (d : Decoder) : M Bool :=
